@@ -50,6 +50,59 @@ def module_bench(name, module_name, clk_freq, rate, speedgrade=None, bankbits=1,
     return corebench.core_bench(name, ck, req, False, extra, info=info)
 
 
+def txxd_bench(name, T):
+    """unit level, unbounded in time by k-induction: the real tXXDController keeps `ready` low until T cycles have passed
+    since the last `valid`"""
+    from vlib import bmc
+    from litedram.common import tXXDController
+
+    class Top(Module):
+        pass
+    top = Top()
+    top.submodules.dut = dut = tXXDController(T)
+    W = bits_for(T + 2)
+    age = Signal(W, reset=T + 1)     # cycles since the last valid (saturating)
+    top.sync += age.eq(Mux(dut.valid, 1, Mux(age >= T + 1, age, age + 1)))
+    b = Signal()
+    top.comb += b.eq(dut.ready & (age < T))
+    c = Signal()
+    top.comb += c.eq(dut.ready & (age == T))
+    return bmc.Bench(name, top, {"valid": dut.valid}, bads={"ready_before_T_cycles_after_valid": b},
+                     covers={"ready_exactly_T_cycles_after_valid": c}, info=dict(T=T))
+
+
+def tfaw_bench(name, T):
+    """unit level, k-induction: with the real tFAWController gating activates, no five activates fall into T cycles"""
+    from vlib import bmc
+    from litedram.common import tFAWController
+
+    class Top(Module):
+        pass
+    top = Top()
+    top.submodules.dut = dut = tFAWController(T)
+    W = bits_for(T + 2)
+    ages = [Signal(W, reset=T + 1) for _ in range(4)]     # ages of the last four activates, [0] newest
+    inc = lambda a: Mux(a >= T + 1, a, a + 1)
+    act = Signal()
+    top.comb += act.eq(dut.valid)
+    top.sync += [ages[0].eq(Mux(act, 1, inc(ages[0])))] + [ages[i].eq(Mux(act, inc(ages[i - 1]), inc(ages[i]))) for i in range(1, 4)]
+    b = Signal()
+    top.comb += b.eq(act & (ages[3] < T))
+    a = Signal()
+    top.comb += a.eq(~dut.valid | dut.ready)      # the multiplexer only activates while ready
+    c = Signal()
+    top.comb += c.eq(act & (ages[2] < T) & (ages[3] >= T))
+    return bmc.Bench(name, top, {"valid": dut.valid}, assumes={"activate_only_when_ready": a},
+                     bads={"fifth_activate_inside_the_tFAW_window": b},
+                     covers={"fourth_activate_inside_the_window_of_the_previous_three_is_allowed": c}, info=dict(tFAW=T))
+
+
+UNITS = {}
+for _T in (1, 2, 3, 4, 6, 9, 13):
+    UNITS["unit_tXXD_%d" % _T] = (txxd_bench, _T)
+for _T in (4, 5, 7, 10):
+    UNITS["unit_tFAW_%d" % _T] = (tfaw_bench, _T)
+
 CONFIGS = {
     # name: (kwargs, Kq, Kt, tiers)
     "MT48LC16M16_sdr_100MHz": (dict(module_name="MT48LC16M16", clk_freq=100e6, rate="1:1", read_latency=2), 44, 60, "qt"),
@@ -64,6 +117,7 @@ CONFIGS = {
 }
 
 BENCHES = {n: partial(module_bench, n, **c[0]) for n, c in CONFIGS.items()}
+BENCHES.update({n: partial(fn, n, T) for n, (fn, T) in UNITS.items()})
 
 
 def run(ctx):
@@ -73,6 +127,12 @@ def run(ctx):
     ctx.assume("PHY pipeline read_latency shortened to 2-3 cycles (only lengthens the read-to-write turnaround, "
                "which is not among the listed spacings)")
     ctx.assume("read-to-precharge (tRTP) is not in the property's list and is not checked")
+    ctx.assume("unit benches (tXXD/tFAW controllers): base case BMC from reset + k-induction step from a fully symbolic state "
+               "(k = T+2); a closed step makes the spacing claim unbounded in time for that cycle value")
+    for n, (fn, T) in UNITS.items():
+        if ctx.only and not ctx.only.search(n):
+            continue
+        ctx.add(n, 2 * T + 6, timeout=300, induction=T + 2, diff_cycles=8)
     for n, (c, kq, kt, tiers) in CONFIGS.items():
         if ctx.only and not ctx.only.search(n):
             continue
